@@ -91,6 +91,9 @@ def check_c16(prog, rep, tier, cfg):
     c17b(prog, AliasReport(rep, [("C17.b", r".", "C16.h")]))
     c16i(prog, rep)
     c16j(prog, rep)
+    # C16.k — every source file found under a directory is formatted like the same content from stdin: the walk drops an entry only
+    # because it is not a formattable file (shared with C18.f / C18.h)
+    c18f(prog, AliasReport(rep, [("C18.f", r"^dropping-adaptor|^floor:reviewed dropping", "C16.k"), ("C18.h", r".", "C16.k")]))
 
 
 def partial_writes(prog, crates=("pasfmt",)):
